@@ -503,6 +503,9 @@ func runRetryScript(cfg, method, faultStr string, evs []string, plan []planPoint
 				} else {
 					r.connRet = "0"
 				}
+				// the usual pattern: the context given to Connect is released as soon as it has returned;
+				// the client must keep reconnecting, timing out and retransmitting regardless
+				connCancel()
 				close(r.connDone)
 			}()
 		case "pub":
